@@ -137,7 +137,7 @@ def rule_r1(repo, run, helpers):
     R = run.rule("C10.R1", "every buffer access of the embedded C helpers is proved in bounds from the "
                            "documented contracts")
     total_sites = 0
-    nscans = [0]
+    nscans = [0, 0]
     for lang in ("c", "c++"):
         tu, present = build_tu(helpers, lang)
         docs = cbounds.clang_ast(tu, lang, "Shroud")
@@ -161,6 +161,14 @@ def rule_r1(repo, run, helpers):
                               "one blank (trimmed length 1 instead of 0)" % (sc["ivar"], sc["op"], sc["bound"]),
                               "shroud/whelpers.py helper %s (%s source)" % (key, lang),
                               sample=dict(helper=key, scan="%s %s %s" % (sc["ivar"], sc["op"], sc["bound"])))
+                for p_, q_ in cbounds.base_pointer_in_element_loop(fd):
+                    run.fail(R, "whelpers.CHelpers[%s].%s[%s]:element-pointer" % (key, fname, lang),
+                             "inside the loop that advances `%s` element by element, the array base `%s` is used: every "
+                             "element is measured/copied from the first element" % (p_, q_),
+                             "shroud/whelpers.py helper %s (%s source)" % (key, lang))
+                if fname == "ShroudStrArrayAlloc":
+                    nscans[1] += 1
+                    run.ok(R, "whelpers.CHelpers[%s].%s[%s]:element-pointer" % (key, fname, lang))
                 it = cbounds.Interp(fname, fd, CONTRACTS.get(fname, {}), CALLEE_POST).run()
                 sites = set(o.site + "/" + o.kind for o in it.obligations)
                 total_sites += len(sites)
@@ -427,6 +435,18 @@ def rule_r2(repo, run, table):
                     run.check(R, "statements.fc_statements[%s].buf_args:%s-used" % (name, b), inv[b] in fields,
                               "buf_args requests %r but no statement uses {%s}: an argument is passed and ignored"
                               % (b, inv[b]), loc)
+    # a buffer is blank-filled before content is stored into it, never after
+    for lang in ("c", "c++"):
+        for name, e in sorted(table.resolve_all(lang).items()):
+            if not name.startswith("c_"):
+                continue
+            lines = [l for s_ in e.lines("post_call") for l in templ.code_lines(s_)]
+            fills = [i for i, l in enumerate(lines) if re.search(r"memset\(\{c_var\}, ' '|ShroudStrBlankFill\(\{c_var\}", l)]
+            stores = [i for i, l in enumerate(lines) if re.search(r"\{c_var\}\[[^\]]*\]\s*=[^=]", l)]
+            if fills and stores:
+                run.check(R, "statements.fc_statements[%s]:fill-then-store[%s]" % (name, lang), max(fills) < min(stores),
+                          "the result buffer is blank-filled after the character(s) were stored: the value is overwritten "
+                          "with blanks", table.loc(e.raw), sample=dict(entry=name, post_call=lines))
     run.floor(R, "typed helper calls", ncalls, 40)
 
 
@@ -534,6 +554,19 @@ def rule_r5(repo, run):
     run.check(R, "wrapf.Wrapf.wrap_function_impl:ftrim", ok,
               "the Fortran wrapper must pass trim(arg)//C_NULL_CHAR, import C_NULL_CHAR and force a wrapper",
               wf.loc(sites[0]) if sites else wf.loc(impl))
+    # with F_CFI every character argument (char* of any intent, std::string) is converted by the CFI statements:
+    # the selection depends on the type and indirection only, never on the intent
+    ac = gm.func("GenFunctions.arg_to_CFI")
+    marks = [a for a in ast.walk(ac) if isinstance(a, ast.Assign) and isinstance(a.targets[0], ast.Subscript)
+             and gm.seg(a.targets[0].value) == "cfi_args" and isinstance(a.value, ast.Constant) and a.value.value is True]
+    bad = []
+    for a in marks:
+        for t, pol in pyflow.dominating_tests(a, stop=ac):
+            if "intent" in gm.seg(t):
+                bad.append(gm.seg(t))
+    run.check(R, "generate.GenFunctions.arg_to_CFI:cfi_args", len(marks) >= 3 and not bad,
+              "whether an argument is handled by the CFI statements depends on its intent (%s): in a CFI wrapper the other "
+              "character arguments are passed raw - untrimmed and without NUL" % bad, gm.loc(ac))
     # consumer 2: arg_to_buffer does not create a buffer argument for such parameters
     ab = gm.func("GenFunctions.arg_to_buffer")
     uses = [n for n in ast.walk(ab) if isinstance(n, ast.If) and "ftrim_char_in" in gm.seg(n.test)]
